@@ -19,15 +19,18 @@ for d in sorted(glob.glob(V + "/seeded/C*-seed*/")):
     m["rules_that_report_it"] = sorted(set(l.split()[1].split("|")[0] for l in fired))
     m["own_property_check_reports_it"] = m.get("property") in props
     m["first_reports"] = [l[:240] for l in fired[:4]]
-    rnd = 2 if int(sid.split("seed")[1]) > 3 else 1
+    k = int(sid.split("seed")[1])
+    rnd = 1 if k <= 3 else (2 if k <= 6 else 3)
     m["round"] = rnd
-    if rnd == 2:
-        if sid in still:
-            m["history"] = "round 2; NOT reported by its own property's check: " + still[sid]
-        elif sid in missed2:
-            m["history"] = "round 2; missed by its own check at first evaluation, reported after a necessary-condition rule was added"
+    if rnd >= 2:
+        missed = set(hist["round%d" % rnd]["own_check_missed_at_first_evaluation"])
+        stillr = hist["round%d" % rnd].get("still_missed_by_own_check", {})
+        if sid in stillr:
+            m["history"] = "round %d; NOT reported by its own property's check: %s" % (rnd, stillr[sid])
+        elif sid in missed:
+            m["history"] = "round %d; missed by its own check at first evaluation, reported after a necessary-condition rule was added" % rnd
         else:
-            m["history"] = "round 2; reported at first evaluation"
+            m["history"] = "round %d; reported at first evaluation" % rnd
     json.dump(m, open(d + "meta.json", "w"), indent=1)
     n += 1; own += m["own_property_check_reports_it"]
     print(sid, "own" if m["own_property_check_reports_it"] else "MISS", props, m["rules_that_report_it"][:5])
